@@ -43,4 +43,6 @@ def obligations(tier):
         Ob('fetch_offset_length', 'ch', '2 segments as 1..2 records, pad 0..1, 1..2 VRs; every offset 0..24 and length -1..24',
            ['pFile.FileRead.get_file_logical_data', 'pIndex.LogicalRecordIndex.get_file_logical_data'],
            harness='C01_pfile', func='fetch_slice_two_segments', timeout=1200, parts=16, stubs=['SymFile'], classify=_classify, tiers=('thorough',)),
+        Ob('fetch_offset_length_three_segments', 'ch', 'one record of 3 segments (pad 0..1 / 0..2, checksum on the second, trailing length on the third, 1..3 visible records); offset 0..34, length -1..12',
+           ['pFile.FileRead.get_file_logical_data'], harness='C01_pfile', func='fetch_slice_three_segments', timeout=260 if q else 900, parts=8, stubs=['SymFile']),
     ]
